@@ -271,7 +271,7 @@ def term_of(c, p):
         return None
     res = dv.coq_list([ls_common.zpairs(p['results'].get(t, [])) for t in range(nthr)])
     return '(AC %s %d%%nat %s %s %s %s %s %s %s %d)' % (
-        'true' if c['keep'] else 'false', c['budget'],
+        'true' if c['keep'] else 'false', ls_common.fuel_of(c['budget'], p['status']),
         dv.coq_list([dv.coq_list([op_coq(o) for o in pr]) for pr in c['progs']]),
         dv.coq_list([str(x) for x in c['sched']]),
         ls_common.zpairs(p['steps']), res, dv.zlit(word), 'true' if eng else 'false', dv.zlit(val), p['status'])
